@@ -52,6 +52,17 @@ func ModelAdd(pre *sandbox.Snap, args []string) *AddModel {
 			m.ArgClasses = append(m.ArgClasses, "escapes-root")
 			continue
 		}
+		throughLink := false
+		for i := 0; i < len(c); i++ {
+			if c[i] == '/' && strings.HasPrefix(pre.Odd["w/"+c[:i]], "symlink -> ") {
+				throughLink = true // a directory of the path is a symbolic link: what lies "beneath" it is another directory's content
+			}
+		}
+		if throughLink {
+			m.DomainOK = false
+			m.ArgClasses = append(m.ArgClasses, "through-a-linked-directory")
+			continue
+		}
 		if _, readable := pre.Files["w/"+c]; strings.HasPrefix(pre.Odd["w/"+c], "symlink -> ") && !readable {
 			// a link to nowhere or to a directory: what naming it means is not settled by the statement
 			m.DomainOK = false
